@@ -853,5 +853,7 @@ RUN_FUNCTIONS_NOTE = (
     "_finalize_components, schedule._find_dependencies, Component.connect/update/finalize, ConnectHelper.connect, "
     "Output.push_data/get_data/_interpolate/_clear_data, Input.pull_data, Adapter.get_data, TimeDelayAdapter.get_data, "
     "DelayFixed/DelayToPull/DelayToPush.with_delay, TimeCachingAdapter._source_updated/_get_data (list in "
-    "functions_encoded is traced from one path per family)."
+    "functions_encoded is traced from one path per family). The shifts of DelayFixed/DelayToPull used by the oracles are "
+    "computed by the harness from the adapters' creation parameters and its own record of the pulls through them "
+    "(sched.spec_with_delay), not by the adapters' with_delay."
 )
